@@ -65,7 +65,13 @@ pub fn panic_kind(msg: &str) -> &'static str {
     else if msg.starts_with("assertion") { "assert" }
     else if msg.contains("called `Result::unwrap()`") || msg.contains("called `Option::unwrap()`") { "unwrap" }
     else if msg.contains("index out of bounds") || msg.contains("out of range") { "index" }
-    else if msg.contains("overflow") || msg.contains("divide by zero") { "arith" }
+    else if msg.contains("divide by zero") { "arith-divide-by-zero" }
+    else if msg.contains("remainder with a divisor of zero") { "arith-remainder-by-zero" }
+    else if msg.contains("negate with overflow") { "arith-negate-overflow" }
+    else if msg.contains("add with overflow") { "arith-add-overflow" }
+    else if msg.contains("subtract with overflow") { "arith-subtract-overflow" }
+    else if msg.contains("multiply with overflow") { "arith-multiply-overflow" }
+    else if msg.contains("overflow") { "arith-overflow" }
     else if msg.contains("stack") { "stack" }
     else { "explicit" }
 }
